@@ -790,6 +790,37 @@ static void fam_malformed(void)
 			mc_violation("argument-shape-accepted", "both copy_from and *base non-NULL accepted");
 		if (json_patch_apply(j, pa, NULL, &pe) >= 0)
 			mc_violation("argument-shape-accepted", "base == NULL accepted");
+		/* the error record is optional: the same refusals without one */
+		base = NULL;
+		if (json_patch_apply(NULL, pa, &base, NULL) >= 0)
+			mc_violation("argument-shape-accepted", "copy_from == NULL and *base == NULL accepted (no error record)");
+		base = j;
+		if (json_patch_apply(j, pa, &base, NULL) >= 0)
+			mc_violation("argument-shape-accepted", "both copy_from and *base non-NULL accepted (no error record)");
+		if (json_patch_apply(j, pa, NULL, NULL) >= 0)
+			mc_violation("argument-shape-accepted", "base == NULL accepted (no error record)");
+		{
+			static const char *notarr[] = {"{\"op\":\"add\",\"path\":\"/x\",\"value\":1}", "\"add\"", "7", "true", "[[]]", "[7]", "[{\"op\":\"bogus\",\"path\":\"\"}]", "[{\"op\":\"add\"}]"};
+			for (unsigned k = 0; k < sizeof notarr / sizeof notarr[0]; k++)
+				for (int mode = 0; mode < 2; mode++)
+				{
+					struct json_object *bad = json_tokener_parse(notarr[k]), *b2 = mode ? json_tokener_parse("{\"a\":1}") : NULL;
+					int rc = json_patch_apply(mode ? NULL : j, bad, &b2, NULL);
+					if (rc >= 0)
+						mc_violation("accepts-invalid:?", "malformed patch %s accepted (no error record)", notarr[k]);
+					json_object_put(b2);
+					json_object_put(bad);
+				}
+			/* a NULL patch document */
+			struct json_object *b3 = NULL;
+			if (json_patch_apply(j, NULL, &b3, NULL) >= 0)
+				mc_violation("accepts-invalid:?", "NULL patch accepted (no error record)");
+			json_object_put(b3);
+			b3 = NULL;
+			if (json_patch_apply(j, NULL, &b3, &pe) >= 0)
+				mc_violation("accepts-invalid:?", "NULL patch accepted");
+			json_object_put(b3);
+		}
 		base = NULL;
 		if (json_patch_apply(j, pa, &base, NULL) != 0 || !json_object_equal(base, j))
 			mc_violation("empty-patch", "an empty patch with copy_from did not produce an equal copy");
